@@ -433,6 +433,12 @@ def disjoint_check(rep, prog, file, fn, call, other, st, gkey):
                 return b[1] if b[0] == 's' else L + b[1]
             c0, c1 = absolute(iv2[1]), absolute(iv2[2])
             for x in ast.walk(gfn):
+                if isinstance(x, ast.Call) and src(x.func) in ('int', 'float') and len(x.args) >= 1 and isinstance(x.args[0], ast.Name) and x.args[0].id == p:
+                    rep.fail('C05.disjoint', rel(prog.mods[gkey[0]].path), gkey[1], '%s (compared: %s, length %d)' % (src(x), o, L), x.lineno,
+                             'validate() hands the whole %d-character number to %s() and compares the result with %s, but the generator reads %s, the value of '
+                             'all its characters including the compared position: for a payload without check digits that value is another one, so the '
+                             'digit it generates is not the one validate() accepts' % (L, gkey[1], o, src(x)))
+                    return
                 if isinstance(x, ast.Subscript) and isinstance(x.value, ast.Name) and x.value.id == p:
                     ivg = interval(x)
                     if ivg is None:
